@@ -937,11 +937,6 @@ class Unit:
                         i0 = ln.index("{")
                         ln = ln[:i0 + 1] + " assert(false); " + ln[i0 + 1:]
                     pending_lemma = None
-                elif pending_lemma and not mlem and ln.rstrip().endswith("{") and not ln.lstrip().startswith("//"):
-                    lemma_names.append(pending_lemma)
-                    if canary:
-                        ln = ln + " assert(false); "
-                    pending_lemma = None
             if k == 0:
                 ln = "#![feature(allocator_api)] #![allow(non_upper_case_globals, unused_imports, unused_variables, dead_code, unused_mut, unused_parens, unused_braces)] " + ln
             if ln.startswith("//@@CANARY"):
